@@ -7,7 +7,7 @@ from . import common, genops
 from .common import viol
 
 ID = "C11"
-RUNS = {"quick": 160, "thorough": 700}
+RUNS = {"quick": 160, "thorough": 450}
 REAL = common.REAL
 SIMULATED = common.SIMULATED
 ASSUMPTIONS = [
@@ -31,7 +31,7 @@ SWEEP_CHUNKS = 8
 
 
 def n_fixed(tier):
-    return 4 + SWEEP_CHUNKS
+    return 4 + 2 * SWEEP_CHUNKS
 
 
 def _size_sweep(tier):
@@ -75,7 +75,43 @@ def fixed_specs(tier, ctx):
             {"cfg": {"klass": "plain"}, "ops": [{"op": "gen_cli", "params": dict(huge, seed=6, width=1, length=3500), "solve": False},
                                                 {"op": "gen_cli", "params": dict(huge, seed=7, width=130, length=2), "solve": False},
                                                 {"op": "gen_cli", "params": dict(huge, seed=8, width=3000, length=1,
-                                                                                 force_down=False), "solve": False}]}] + _size_sweep(tier)
+                                                                                 force_down=False), "solve": False}]}] + _size_sweep(tier) + _round_counts(tier, ctx)
+
+
+def _round_counts(tier, ctx):
+    """Board sizes at which one of the three games has a *round* number of states (a multiple of 512, 1000, 1024,
+    4096, 5000, 8192, 10000): a writer that works in blocks meets its boundary case exactly there.  The number of states
+    per game is measured on two small boards of the reference and extrapolated linearly (checked on a third)."""
+    def counts(n):
+        g = common.board_games(ctx, {"seed": 1, "width": 1, "length": n, "max_reward": 1, "rb": 0.5, "lb": 0.5, "tb": 0.5,
+                                     "lt": 0.5, "force_down": False})
+        if not g:
+            return None
+        try:
+            return {k: len(dec(v)["players"]) for k, v in g.items()}
+        except Exception:
+            return None
+    c1, c2, c3 = counts(4), counts(9), counts(13)
+    sizes = set()
+    if c1 and c2 and c3 and set(c1) == set(c2) == set(c3):
+        for k in c1:
+            a, rem = divmod(c2[k] - c1[k], 5)
+            b = c1[k] - 4 * a
+            if rem or a <= 0 or a * 13 + b != c3[k]:
+                continue
+            top = 1500 if tier == "quick" else 6000
+            for m in (512, 1000, 1024, 2048, 4096, 5000, 8192, 10000, 16384, 65536):
+                for n in range(1, top + 1):
+                    if (a * n + b) % m == 0:
+                        sizes.add(n)
+    chunks = [[] for _ in range(SWEEP_CHUNKS)]
+    for j, n in enumerate(sorted(sizes)):
+        w_ = max(d for d in range(1, int(n ** 0.5) + 1) if n % d == 0)
+        w_, l_ = (w_, n // w_) if w_ > 1 and n // w_ <= 400 else (1, n)
+        chunks[j % SWEEP_CHUNKS].append({"op": "gen_cli", "solve": False,
+                                         "params": {"seed": n, "width": w_, "length": l_, "max_reward": 3, "rb": 0.1, "lb": 0.2,
+                                                    "tb": 0.3, "lt": 0.3, "force_down": bool(n % 2)}})
+    return [{"cfg": {"klass": "round-state-counts"}, "ops": c} for c in chunks]
 
 
 def _manual(rng):
